@@ -436,6 +436,11 @@ pub fn sender_blocking<M: ZooMsg + ?Sized>(sh: Shared, plan: Arc<Plan>) {
         };
         let mut i = 0usize;
         let mut resends = 0u32;
+        // the send buffer starts as uninitialised heap memory (differs from process to process,
+        // and padding bytes of a frame are whatever was there): give it a defined start
+        if let Ok(mut ug) = sender.alloc() {
+            ug.as_mut_bytes().fill(0);
+        }
         let (abandon_p, prefill) = sender_policy(&sh);
         while i < plan.msgs.len() {
             let mp = &plan.msgs[i];
@@ -716,6 +721,10 @@ pub async fn sender_async<M: ZooMsg + ?Sized>(sh: Shared, plan: Arc<Plan>) {
     };
     let mut i = 0usize;
     let mut resends = 0u32;
+    // see sender_blocking
+    if let Ok(mut ug) = sender.alloc().await {
+        ug.as_mut_bytes().fill(0);
+    }
     let (abandon_p, prefill) = sender_policy(&sh);
     while i < plan.msgs.len() {
         let mp = &plan.msgs[i];
